@@ -240,6 +240,10 @@ class Dataset(AbstractDataset, dict, OpMixin, GetSetDelAttrMixin):
 
     def copy(self):
         ds2 = Dataset({k : v for k, v in self.items()})
+        # the copy is rebuilt variable after variable: put its dimensions back in the order of the original
+        # (they are also referred to by position)
+        if ds2.dims != self.dims and sorted(ds2.dims) == sorted(self.dims):
+            ds2.axes.sort(self.dims)
         ds2.attrs.update(self.attrs)
         return ds2
 
